@@ -264,8 +264,18 @@ def eig(a):
         if h:
             V = unitary(ctx, 'eigV', n, real)
             D = np.empty(n, dtype=object)
+            tagd = next(ctx.fresh)
             for i in range(n):
-                D[i] = ctx.real('eigD%d_%d' % (next(ctx.fresh), i))
+                if ctx.eig_sorted and i > 0:
+                    # ascending, distinct: D[i] = D[i-1] + (positive gap), so
+                    # order comparisons are decided from the declared signs
+                    D[i] = D[i - 1] + ctx.real('eigGap%d_%d' % (tagd, i),
+                                               positive=True)
+                else:
+                    D[i] = ctx.real('eigD%d_%d' % (tagd, i))
+            if ctx.eig_sorted:
+                ctx.notes.append('eig stub returns distinct eigenvalues in '
+                                 'ascending order (assumption)')
             Dm = np.empty((n, n), dtype=object)
             for i in range(n):
                 for j in range(n):
